@@ -15,6 +15,8 @@ def raster_pipeline(chk, tier, tv_module, pid):
     rnd = os.path.join(d, "random.ndjson")
     vf.run_harness(binpath, ["raster", "gen", "--seed", vf.seed(), "--tier", tier, "random"], stdout_path=rnd)
     n2 = vf.exec_and_validate(chk, binpath, "raster", tv_module, rnd, jvms=12, what="triangle")
+    # the random triangles also in a plain release build (no debug assertions / overflow checks)
+    vf.exec_and_validate(chk, vf.build_harness("plain"), "raster", tv_module, rnd, jvms=12, what="triangle (plain release build)")
     return n1, n2
 
 
